@@ -34,6 +34,7 @@ def translate():
     fails = []
     hs = open(os.path.join(MUX, "h2.rs")).read()
     cs = open(os.path.join(MUX, "converter.rs")).read()
+    ss = open(os.path.join(MUX, "stream.rs")).read()
     code = hs.split("\n#[cfg(test)]\nmod tests")[0]
     consts = {}
     for n in H2_CONSTS:
@@ -57,19 +58,19 @@ def translate():
          "handle_window_update_frame: zero increment on stream 0 is no longer GOAWAY(PROTOCOL_ERROR)"),
         (code, r"self\.flow_control\.window\.checked_add\(increment\)",
          "handle_window_update_frame no longer uses checked_add on the connection window"),
-        (code, r"stream\.window\.checked_add\(increment\)",
+        (code, r"stream_window\.checked_add\(increment\)",
          "handle_window_update_frame no longer uses checked_add on the stream window"),
         (code, r"return self\.goaway\(H2Error::FlowControlError\);",
          "handle_window_update_frame: connection window overflow is no longer GOAWAY(FLOW_CONTROL_ERROR)"),
         (code, r"if self\.flow_control\.window <= 0 && window > 0 \{\s*self\.readiness\.arm_writable\(\);",
          "handle_window_update_frame no longer arms WRITABLE when the connection window becomes positive"),
-        (code, r"if stream\.window <= 0 && window > 0 \{\s*self\.readiness\.arm_writable\(\);",
+        (code, r"if \*stream_window <= 0 && window > 0 \{\s*self\.readiness\.arm_writable\(\);",
          "handle_window_update_frame no longer arms WRITABLE when a stream window becomes positive"),
         (code, r"if value > FLOW_CONTROL_MAX_WINDOW \{\s*return true;",
          "update_initial_window_size no longer rejects values above 2^31-1"),
-        (code, r"match stream\.window\.checked_add\(delta\) \{\s*Some\(new_window\) => \{\s*open_window \|= stream\.window <= 0 && new_window > 0;\s*stream\.window = new_window;",
+        (code, r"match stream_window\.checked_add\(delta\) \{\s*Some\(new_window\) => \{\s*open_window \|= \*stream_window <= 0 && new_window > 0;\s*\*stream_window = new_window;",
          "update_initial_window_size no longer applies the delta with checked_add to every stream"),
-        (code, r"match stream\.window\.checked_add\(delta\) \{.{0,400}?None => return true,",
+        (code, r"match stream_window\.checked_add\(delta\) \{.{0,400}?None => return true,",
          "update_initial_window_size no longer reports a stream-window overflow as an error"),
         (code, r"if self\.update_initial_window_size\(v, context\) \{.{0,200}?return self\.goaway\(H2Error::FlowControlError\);",
          "handle_settings_frame: an invalid SETTINGS_INITIAL_WINDOW_SIZE is no longer GOAWAY(FLOW_CONTROL_ERROR)"),
@@ -79,6 +80,12 @@ def translate():
          "handle_settings_frame no longer validates SETTINGS_MAX_FRAME_SIZE"),
         (code, r"\*existing = existing\.saturating_add\(increment\)\.min\(max_increment\);",
          "queue_window_update no longer coalesces with saturation at 2^31-1"),
+        (code, r"\*s\.split\(&self\.position\)\.window =\s*i32::try_from\(self\.peer_settings\.settings_initial_window_size\)",
+         "start_stream no longer initialises the stream's send window from this peer's SETTINGS_INITIAL_WINDOW_SIZE"),
+        (code, r"let stream_window = if is_client \{\s*&mut stream\.backend_window\s*\} else \{\s*&mut stream\.window\s*\};.{0,200}?let stream_window_before",
+         "handle_window_update_frame no longer picks the window of its own direction"),
+        (ss, r"Position::Client\(\.\.\) => StreamParts \{\s*window: &mut self\.backend_window,",
+         "Stream::split no longer gives a backend connection its own send window"),
         (cs, r"self\.window -= i32::try_from\(payload_len\)\.unwrap_or\(i32::MAX\);",
          "converter DATA arm no longer subtracts the payload from its window"),
     ]
@@ -227,29 +234,33 @@ HARNESS_BINS = ["c14", "c14bb"]
 
 
 def extra_stage(tier, rng, work):
-    """Black-box tier: a real worker (HTTP/1 listener -> h2c backend), a byte-accounting scripted backend that
-    announces its own SETTINGS_INITIAL_WINDOW_SIZE, replenishes exactly what it received and keeps its own
-    ledger; any DATA beyond what it granted is the replay.  Deterministic in what it checks (ledger
-    inequalities), not in timing."""
+    """Black-box tier: a real worker, a byte-accounting scripted h2c backend that announces its own
+    SETTINGS_INITIAL_WINDOW_SIZE, opens the connection window wide and grants stream credit only after
+    silence (race-free ledger), and a client uploading bodies on one connection: HTTP/1.1 keep-alive on a
+    plain listener, or a raw H2 client over TLS announcing its own (large) initial window.  Any DATA beyond
+    what the backend granted, any DATA above its max frame size, a failed second keep-alive request are
+    violations with the run as replay."""
     res = dict(failures=[], viols=[], coverage={})
-    windows = [1000, 16384, 65535, 70000] if tier != "thorough" else [1, 1000, 16383, 16384, 16385, 65535, 65536, 70000, 1 << 20]
-    runs, data_frames = 0, 0
-    for w in windows:
-        body = rng.choice([20000, 30000, 70000])
-        rc, o, e, dt = vlib.sh([vlib.harness_path("c14bb"), str(w), str(body), "2"], timeout=120, cwd=work)
+    runs = [("h1", 1000, 5000, 2, 65535), ("h1", 65535, 70000, 2, 65535), ("h2", 65535, 200000, 1, 6291456), ("h2", 1000, 5000, 2, 65535)]
+    if tier == "thorough":
+        runs += [("h1", 1, 40, 2, 65535), ("h1", 16384, 70000, 3, 65535), ("h1", 70000, 200000, 2, 65535), ("h2", 16384, 100000, 2, 1 << 20),
+                 ("h2", 100000, 300000, 1, 2 ** 31 - 1), ("h2", 65535, 70000, 2, 100)]
+    n, data_frames = 0, 0
+    for (mode, w, body, nreq, cw) in runs:
+        rc, o, e, dt = vlib.sh([vlib.harness_path("c14bb"), mode, str(w), str(body), str(nreq), str(cw)], timeout=150, cwd=work)
         if rc != 0:
-            res["failures"].append("c14bb %d %d: exit %d %s" % (w, body, rc, (o + e)[-300:]))
+            res["failures"].append("c14bb %s %d %d: exit %d %s" % (mode, w, body, rc, (o + e)[-300:]))
             continue
-        runs += 1
+        n += 1
         lines = o.splitlines()
         data_frames += sum(1 for l in lines if l.startswith("obs data"))
-        c = Case("bb_w%d_b%d" % (w, body), [["blackbox", w, body, 2]], dict(kind="blackbox"))
+        c = Case("bb_%s_w%d_b%d" % (mode, w, body), [["blackbox", mode, w, body, nreq, cw]], dict(kind="blackbox"))
         for l in lines:
             if l.startswith("viol "):
                 p = l.split(" ", 2)
                 res["viols"].append((c, p[1], p[2] if len(p) > 2 else ""))
         if not any(l.startswith("obs headers") for l in lines):
-            res["failures"].append("c14bb %d %d: the backend saw no request (worker or mock did not start)" % (w, body))
-    res["coverage"] = dict(blackbox_runs=runs, blackbox_data_frames_accounted=data_frames,
-                           blackbox_rule="real worker, HTTP/1 client -> h2c backend announcing INITIAL_WINDOW_SIZE=w; backend ledger: DATA received <= granted per stream and per connection, every DATA <= 16384")
+            res["failures"].append("c14bb %s %d %d: the backend saw no request (worker or mock did not start)" % (mode, w, body))
+    res["coverage"] = dict(blackbox_runs=n, blackbox_data_frames_accounted=data_frames,
+                           blackbox_rule="harness/src/bin/c14bb.rs: real worker, HTTP/1 keep-alive or raw H2/TLS client -> h2c backend announcing INITIAL_WINDOW_SIZE=w; backend ledger (grants only after silence): DATA received <= granted per stream and per connection, every DATA <= 16384; sequential uploads all answered")
     return res
